@@ -70,11 +70,16 @@ func runC15(c *Ctx) {
 	c.rule("syntax-agree", "writers (flag helpers' String) quote with strconv.Quote and separate with ',' (and ':' for maps); readers unquote with strconv.Unquote and split on the same runes; unsigned slices are formatted with FormatUint and parsed with ParseUint, signed ones with FormatInt/ParseInt, base 10 out / base 0 in", 8)
 	c.rule("empty-forms", "the empty string is a legitimate map key (the splitter never tests the key text against \"\" to decide whether a key was read) and the empty text is the canonical form of an empty collection (strings.Split-based parsers answer it with an empty result)", 3)
 	c.rule("single-token-per-part", "in the map splitter a token's text is stored into the key (value) state only while that part's already-read flag is false, and the store sets the flag: a second token for the same part is an error, never a silent replacement (an unparsable value is an error rather than a truncated one)", 2)
+	c.rule("error-not-value", "(shared with C12) when the flag source detects an out-of-range or unconvertible flag value its Value returns the error and not a config", 1)
 	c.rule("pair-state-reset", "after the map splitter hands a (key, value) pair to its callback, both pieces of state are reset to \"\" on every path that continues parsing (a value must not leak into a later key that has none)", 2)
 	c.rule("dups-rejected", "Map and StringSet report an error for a key that is already present, before storing", 2)
 
 	w := c.W
 	c15Narrowing(c)
+	// the standard-library flag source narrows the parsed flag value itself (reflect Convert after its own overflow helper)
+	if val := c.W.fn("sources/flag", "Set.Value"); val != nil {
+		c12Narrowing(c, val)
+	}
 	c15PairStateReset(c, "pair-state-reset")
 	c15SingleTokenPerPart(c, "single-token-per-part")
 	c15EmptyForms(c, "empty-forms")
